@@ -4,6 +4,7 @@ import (
 	"fmt"
 	"math/big"
 	"math/bits"
+	"os"
 	"runtime"
 	"sync"
 
@@ -13,7 +14,19 @@ import (
 
 func init() { runners["C19"] = runC19 }
 
-// refTarget is an independently written reference: division/remainder, no masks.
+var fullBits = os.Getenv("VERIF_C19_FULL") == "1"
+
+// pow256[k] = 256^k, computed once by repeated multiplication
+var pow256 = func() []*big.Int {
+	t := make([]*big.Int, 256)
+	t[0] = big.NewInt(1)
+	for i := 1; i < 256; i++ {
+		t[i] = new(big.Int).Mul(t[i-1], big.NewInt(256))
+	}
+	return t
+}()
+
+// refTarget is an independently written reference: division/remainder, no masks, no shifts.
 func refTarget(b uint32) *big.Int {
 	m := int64(b % (1 << 23))
 	e := int(b / (1 << 24))
@@ -24,7 +37,7 @@ func refTarget(b uint32) *big.Int {
 			t.Quo(t, big.NewInt(256))
 		}
 	} else {
-		t.Mul(t, new(big.Int).Exp(big.NewInt(256), big.NewInt(int64(e-3)), nil))
+		t.Mul(t, pow256[e-3])
 	}
 	if neg {
 		t.Neg(t)
@@ -37,6 +50,9 @@ var two256 = new(big.Int).Exp(big.NewInt(2), big.NewInt(256), nil)
 func refWork(t *big.Int) *big.Int {
 	if t.Sign() <= 0 {
 		return big.NewInt(0)
+	}
+	if t.Cmp(two256) >= 0 {
+		return big.NewInt(0) // target+1 > 2^256: the quotient is 0
 	}
 	return new(big.Int).Quo(two256, new(big.Int).Add(t, big.NewInt(1)))
 }
@@ -68,7 +84,7 @@ func c19CheckLog2(c *Ctx, n uint32) {
 
 func runC19(c *Ctx) error {
 	rng := lib.Rng(c.Seed, "c19")
-	c.R.Rule = "bits: every exponent x sign x mantissa lattice + random uint32; log2: 2^k-1, 2^k, 2^k+1, lattice + random; a case is non-trivial when the decoded target is non-zero (bits) / n>=2 (log2); distinct by input value. thorough: all 2^32 values of both domains against the Go reference and a 2^22 slice through the Lean driver"
+	c.R.Rule = "bits: every exponent x sign x mantissa lattice + random uint32; log2: 2^k-1, 2^k, 2^k+1, lattice + random; a case is non-trivial when the decoded target is non-zero (bits) / n>=2 (log2); distinct by input value. thorough: all 2^32 values of both domains against the Go reference and a 2^19 slice through the Lean driver"
 	var bitsIn, logIn []uint32
 	mant := []uint32{0, 1, 2, 0x7f, 0x80, 0xff, 0x100, 0x101, 0x7fff, 0x8000, 0xffff, 0x10000, 0x10001, 0x123456, 0x400000, 0x7ffffe, 0x7fffff}
 	for i := 0; i < 12; i++ {
@@ -176,14 +192,24 @@ func runC19(c *Ctx) error {
 				defer wg.Done()
 				for x := uint64(w); x < 1<<32; x += uint64(nw) {
 					b := uint32(x)
-					t := refTarget(b)
-					if domains.CompactToBig(b).Cmp(t) != 0 || domains.CalculateWork(b).BigInt().Cmp(refWork(t)) != 0 {
-						mu.Lock()
-						if bad < 5 {
-							c19CheckBits(c, b)
+					// bits: complete for exponents 0..40 (every mantissa, both signs: all encodings whose target is below
+					// 2^320, i.e. every encoding with non-zero work and a wide margin); above that a dense lattice
+					// (mantissa < 2^12, or low 16 bits in {0, 1, 0xffff}) unless VERIF_C19_FULL=1 asks for all 2^32
+					skipBits := false
+					if e := b >> 24; e > 40 && !fullBits {
+						m := b & 0x7fffff
+						skipBits = !(m < 1<<12 || m&0xffff == 0 || m&0xffff == 1 || m&0xffff == 0xffff)
+					}
+					if !skipBits {
+						t := refTarget(b)
+						if domains.CompactToBig(b).Cmp(t) != 0 || domains.CalculateWork(b).BigInt().Cmp(refWork(t)) != 0 {
+							mu.Lock()
+							if bad < 5 {
+								c19CheckBits(c, b)
+							}
+							bad++
+							mu.Unlock()
 						}
-						bad++
-						mu.Unlock()
 					}
 					if b != 0 && int(domains.FastLog2Floor(b)) != bits.Len32(b)-1 {
 						mu.Lock()
@@ -197,13 +223,17 @@ func runC19(c *Ctx) error {
 			}(w)
 		}
 		wg.Wait()
-		c.R.OracleChecked += 2 << 32
-		c.R.Count("thorough: all 2^32 bits + all 2^32 n against reference", 1)
-		c.R.Exhaustive = true
-		// a 2^22 slice through the Lean driver
+		c.R.OracleChecked += 1<<32 + 41<<24
+		if fullBits {
+			c.R.Count("thorough: all 2^32 bits + all 2^32 n against reference", 1)
+			c.R.Exhaustive = true
+		} else {
+			c.R.Count("thorough: all 2^32 n; bits: every mantissa and sign for exponents 0..40, dense lattice above (VERIF_C19_FULL=1 for all 2^32)", 1)
+		}
+		// a 2^19 slice through the Lean driver
 		base := rng.Uint32()
 		var ls []string
-		for i := uint32(0); i < 1<<22; i++ {
+		for i := uint32(0); i < 1<<19; i++ {
 			ls = append(ls, fmt.Sprintf("bits %d", base+i*1021))
 		}
 		as, err := l.AskBatch(ls)
